@@ -199,6 +199,13 @@ def run_units(exe, d, nfiles, jobs, tag, deadline_s=0):
                 break
             if not os.path.exists(op) and i not in died and summary.get("exhaustive") is False:
                 break                   # never started (deadline)
+            if i not in died and not (done == "compiler-crash" and not split):
+                # vx lists only the first records of a key: run again from here to learn how this one dies
+                rc2, s2, d2, e2 = run_harness(exe, d, nfiles, 1, tag + "-resume", extra=["--from=%d" % i, "--to=%d" % (i + 1),
+                                                                                          "--start=%d" % len(order)] + (["--split=1"] if split else []))
+                died[i] = d2.get(i, "died:unknown")
+                res, order, done = parse_out(op)
+                continue
             if done == "compiler-crash" and not split:
                 split = True            # the compiler died on the whole unit: go entry by entry
                 with open(op, "ab") as f:
@@ -216,6 +223,8 @@ def run_units(exe, d, nfiles, jobs, tag, deadline_s=0):
                 funcs += s2.get("counters", {}).get("functions_called", 0)
             if i in d2:
                 died[i] = d2[i]
+            else:
+                died.pop(i, None)
             res, order, done = parse_out(op)
         results.update(res)
     summary["wall_s"] = round(time.time() - t0, 1)
